@@ -4,10 +4,10 @@ package main
 
 import (
 	"fmt"
-	"os"
 	"go/ast"
 	"go/token"
 	"go/types"
+	"os"
 	"strings"
 )
 
@@ -238,7 +238,6 @@ func c02PosixLongest(c *Ctx, r *Report, rule string) {
 	r.Floor(rule, 1, "buildRegexp's POSIX return")
 }
 
-
 // ---------------------------------------------------------------- C06-g -z decides by probing the content
 
 // c06GzipProbe (C06-g/gzip-probe): in the file opener, on every path on which
@@ -462,7 +461,6 @@ func c01ClassConditions(c *Ctx, r *Report, rule string) {
 	})
 	r.Floor(rule, 4, "unmatched, ignored by expression, ignored by empty key, matched")
 }
-
 
 // ---------------------------------------------------------------- C05-a a locked snapshot of a slice/map is still the shared storage
 
